@@ -82,6 +82,35 @@ static void *sorter_leftover_thread(void *arg)
 	mtbl_sorter_destroy(&s);
 	return NULL;
 }
+/* the last add lands exactly on the spill threshold (every add spills: the limit is one byte), so the batch is
+ * empty when mtbl_sorter_iter is called while the last chunk jobs are still with the pool */
+static void *sorter_exact_thread(void *arg)
+{
+	long id = (long) arg; char spill[512]; snprintf(spill, sizeof spill, "%s", dir);
+	struct mtbl_sorter_options *so = mtbl_sorter_options_init();
+	mtbl_sorter_options_set_max_memory(so, (seed % 2) ? 1 : 48);      /* 48 = two of the 24-byte records below */
+	mtbl_sorter_options_set_temp_dir(so, spill);
+	mtbl_sorter_options_set_merge_func(so, merge_cat, NULL);
+	mtbl_sorter_options_set_threadpool(so, pool);
+	pthread_barrier_wait(&bar);
+	struct mtbl_sorter *s = mtbl_sorter_init(so);
+	mtbl_sorter_options_destroy(&so);
+	char k[32];
+	for (int i = 0; i < 40; i++) { snprintf(k, sizeof k, "k%04d", (int)((i * 7 + id) % 23)); mtbl_sorter_add(s, (uint8_t *) k, 5, (uint8_t *) "vvv", 3); }
+	struct mtbl_iter *it = (seed % 3 == 0) ? NULL : mtbl_sorter_iter(s);
+	if (it != NULL) {
+		const uint8_t *kk, *vv; size_t lk, lv;
+		while (mtbl_iter_next(it, &kk, &lk, &vv, &lv) == mtbl_res_success) ;
+		mtbl_iter_destroy(&it);
+	} else if (seed % 3 == 0) {
+		char path[600]; snprintf(path, sizeof path, "%s/sx%ld.mtbl", dir, id); unlink(path);
+		struct mtbl_writer *w = mtbl_writer_init(path, NULL);
+		mtbl_sorter_write(s, w);
+		mtbl_writer_destroy(&w); unlink(path);
+	}
+	mtbl_sorter_destroy(&s);
+	return NULL;
+}
 static struct mtbl_reader *shared_reader;
 static void *reader_thread(void *arg)
 {
@@ -124,6 +153,7 @@ int main(int argc, char **argv)
 	const char *sc = argv[1]; seed = atoi(argv[2]); dir = argv[3];
 	if (!strcmp(sc, "writers")) { pool = mtbl_threadpool_init(2 + seed % 15); run_threads(writer_thread, 4); mtbl_threadpool_destroy(&pool); }
 	else if (!strcmp(sc, "sorters_leftover")) { pool = mtbl_threadpool_init(1 + seed % 4); run_threads(sorter_leftover_thread, 1 + seed % 3); mtbl_threadpool_destroy(&pool); }
+	else if (!strcmp(sc, "sorters_exact")) { pool = mtbl_threadpool_init(1 + seed % 4); run_threads(sorter_exact_thread, 1 + seed % 3); mtbl_threadpool_destroy(&pool); }
 	else if (!strcmp(sc, "sorters")) { pool = mtbl_threadpool_init(1 + seed % 6); run_threads(sorter_thread, 4); mtbl_threadpool_destroy(&pool); }
 	else if (!strcmp(sc, "readers")) {
 		char path[512]; snprintf(path, sizeof path, "%s/tr.mtbl", dir); make_table(path, (seed % 2) ? MTBL_COMPRESSION_NONE : MTBL_COMPRESSION_LZ4);
